@@ -19,6 +19,12 @@ type exampleBuilder struct {
 	// Infinity recursion can't happen here 'cause we check it before building
 	// example, but optional recursion can be there.
 	processedTypes map[string]int
+
+	// droppable counts the enclosing places which may be left out of the
+	// example (optional properties, array elements, or alternatives but the
+	// last one): only below one of them a value cut off by the recursion guard
+	// is handed upwards as "no example".
+	droppable int
 }
 
 func newExampleBuilder(types map[string]internalSchema.Type) *exampleBuilder {
@@ -55,15 +61,35 @@ func (b *exampleBuilder) buildExampleForObjectNode(node *internalSchema.ObjectNo
 	buf := exampleBufferPool.Get()
 	defer exampleBufferPool.Put(buf)
 
+	required := map[string]struct{}{}
+	if c, ok := node.Constraint(constraint.RequiredKeysConstraintType).(*constraint.RequiredKeys); ok {
+		for _, k := range c.Keys() {
+			required[k] = struct{}{}
+		}
+	}
+
 	buf.WriteRune('{')
 	first := true
 	for i, childNode := range node.Children() {
+		_, isRequired := required[node.Key(i).Key]
+		if !isRequired {
+			b.droppable++
+		}
 		ex, err := b.Build(childNode)
+		if !isRequired {
+			b.droppable--
+		}
 		if err != nil {
 			return nil, err
 		}
 
 		if ex == nil {
+			if isRequired && b.droppable > 0 {
+				// A required property was cut off by the recursion guard: the
+				// object has no example here, the optional place it stands in
+				// is left out instead.
+				return nil, nil
+			}
 			continue
 		}
 
@@ -141,7 +167,9 @@ func (b *exampleBuilder) buildExampleForArrayNode(node *internalSchema.ArrayNode
 	buf.WriteRune('[')
 	first := true
 	for _, childNode := range node.Children() {
+		b.droppable++
 		ex, err := b.Build(childNode)
+		b.droppable--
 		if err != nil {
 			return nil, err
 		}
@@ -173,7 +201,7 @@ func (b *exampleBuilder) buildExampleForMixedValueNode(node *internalSchema.Mixe
 	// Take the first alternative which is not cut off by the recursion guard:
 	// for `@list | @leaf` the example of the innermost level is the leaf, not a
 	// hole where a required property should be.
-	for _, typeName := range tt {
+	for i, typeName := range tt {
 		if !bytes.Bytes(typeName).IsUserTypeName() {
 			return node.Value(), nil
 		}
@@ -183,7 +211,17 @@ func (b *exampleBuilder) buildExampleForMixedValueNode(node *internalSchema.Mixe
 			continue
 		}
 
-		return b.buildExampleForUserType(typeName)
+		last := i == len(tt)-1
+		if !last {
+			b.droppable++
+		}
+		ex, err := b.buildExampleForUserType(typeName)
+		if !last {
+			b.droppable--
+		}
+		if err != nil || ex != nil || last {
+			return ex, err
+		}
 	}
 	return nil, nil
 }
